@@ -137,7 +137,7 @@ def cases(block):
         mdx = max(dx)
         for R in (1.7 * mdx, 2.4 * mdx, 0.3 * mdx):
             for label, c in centre_classes(g, R, ph):
-                widths = [None] if block["cls"] == "SphericalDroplet" else [None, 0.0, 0.5 * mdx, 1.3 * mdx]
+                widths = [None] if block["cls"] == "SphericalDroplet" else [None, 0.0, 0.5 * mdx, 1.3 * mdx, 1e-3 * mdx, 1e3 * mdx]  # incl. extremely thin / wide
                 for w in widths:
                     for lv in LEVELS:
                         yield {"cls": block["cls"], "grid": g, "centre": c, "R": R, "width": w, "levels": lv, "label": label}
